@@ -683,7 +683,28 @@ func trackRun(e *Env) {
 	var queries []string
 	clientLines := 0
 	e.LinkPlan = func(l *simnet.Link) { l.ChunkMode = g.Intn(4); l.Window = []int{0, 0, 0, 16, 64, 300}[g.Intn(6)] }
+	dials := 0
 	e.OnDial = func(l *simnet.Link) {
+		dials++
+		if dials > 1 {
+			// a reconnect issued by the poller after the mid-session end: a new
+			// session whose lines must not reach the tracker while a foreground
+			// handler of the old connection is still running
+			e.S.Spawn(fmt.Sprintf("server%d", dials), func() {
+				if _, ok := Registration(l, time.Hour); !ok {
+					return
+				}
+				l.SendLine(":irc.sim 001 again :Welcome to the sim again!sim@host.sim")
+				l.SendLine(":again!sim@host.sim JOIN #second")
+				l.SendLine(":irc.sim 353 again = #second :again @zoe +yan")
+				for {
+					if _, ok := l.RecvLine(); !ok {
+						return
+					}
+				}
+			})
+			return
+		}
 		net.l = l
 		e.S.Spawn("server", func() {
 			if _, ok := Registration(l, time.Hour); !ok {
@@ -709,6 +730,7 @@ func trackRun(e *Env) {
 
 	ended := false
 	endHow, endAt := 0, -1
+	endReconnect := false
 	startEnd := func() {
 		if ended {
 			return
@@ -728,6 +750,20 @@ func trackRun(e *Env) {
 				net.l.Reset()
 			}
 		})
+		if endReconnect {
+			// an application that reconnects as soon as Connected() is false,
+			// without waiting for DISCONNECTED
+			e.S.Spawn("reconnect-poller", func() {
+				for k := 0; k < 400; k++ {
+					if !c.Connected() {
+						e.S.Count("probe.reconnect-while-teardown-may-be-in-progress")
+						c.Connect()
+						return
+					}
+					simrt.Sleep(time.Duration(e.S.Choose(3)) * time.Millisecond)
+				}
+			})
+		}
 	}
 	// ---- C05 handlers ----
 	if e.Prop == "C05" {
@@ -901,6 +937,7 @@ func trackRun(e *Env) {
 		// chosen line (by another task: Close from a handler is outside the claim).
 		endHow = g.Intn(3)
 		endAt = g.Range(2, 3*nEvents+2)
+		endReconnect = g.Bool()
 	}
 	for ev := 0; ev < nEvents && !e.S.Failed() && !ended; ev++ {
 		// answer a pending query now and then
